@@ -142,8 +142,8 @@ def reformat_files(
         make_parents: Whether to make parent directories if they don't exist.
         list_spacing: Control list spacing: "preserve" (default), "loose", or "tight".
     """
-    if len(files) == 1 and files[0] == "-":
-        # Single stdin case - use original function
+    if len(files) == 1:
+        # Single input (a file or stdin): the output option applies to it directly
         reformat_file(
             path=files[0],
             output=output,
